@@ -1338,23 +1338,25 @@ class VM:
 
         def map_fn(*args):
             callback = args[0] if args else None
+            this_arg = args[1] if len(args) > 1 else UNDEFINED
             if not callback:
                 return JSArray()
             result = JSArray()
             result._elements = []
             for i, elem in enumerate(arr._elements):
-                val = vm._call_callback(callback, [elem, i, arr])
+                val = vm._call_callback(callback, [elem, i, arr], this_arg)
                 result._elements.append(val)
             return result
 
         def filter_fn(*args):
             callback = args[0] if args else None
+            this_arg = args[1] if len(args) > 1 else UNDEFINED
             if not callback:
                 return JSArray()
             result = JSArray()
             result._elements = []
             for i, elem in enumerate(arr._elements):
-                val = vm._call_callback(callback, [elem, i, arr])
+                val = vm._call_callback(callback, [elem, i, arr], this_arg)
                 if to_boolean(val):
                     result._elements.append(elem)
             return result
@@ -1420,10 +1422,11 @@ class VM:
 
         def forEach_fn(*args):
             callback = args[0] if args else None
+            this_arg = args[1] if len(args) > 1 else UNDEFINED
             if not callback:
                 return UNDEFINED
             for i, elem in enumerate(arr._elements):
-                vm._call_callback(callback, [elem, i, arr])
+                vm._call_callback(callback, [elem, i, arr], this_arg)
             return UNDEFINED
 
         def indexOf_fn(*args):
@@ -1448,40 +1451,44 @@ class VM:
 
         def find_fn(*args):
             callback = args[0] if args else None
+            this_arg = args[1] if len(args) > 1 else UNDEFINED
             if not callback:
                 return UNDEFINED
             for i, elem in enumerate(arr._elements):
-                val = vm._call_callback(callback, [elem, i, arr])
+                val = vm._call_callback(callback, [elem, i, arr], this_arg)
                 if to_boolean(val):
                     return elem
             return UNDEFINED
 
         def findIndex_fn(*args):
             callback = args[0] if args else None
+            this_arg = args[1] if len(args) > 1 else UNDEFINED
             if not callback:
                 return -1
             for i, elem in enumerate(arr._elements):
-                val = vm._call_callback(callback, [elem, i, arr])
+                val = vm._call_callback(callback, [elem, i, arr], this_arg)
                 if to_boolean(val):
                     return i
             return -1
 
         def some_fn(*args):
             callback = args[0] if args else None
+            this_arg = args[1] if len(args) > 1 else UNDEFINED
             if not callback:
                 return False
             for i, elem in enumerate(arr._elements):
-                val = vm._call_callback(callback, [elem, i, arr])
+                val = vm._call_callback(callback, [elem, i, arr], this_arg)
                 if to_boolean(val):
                     return True
             return False
 
         def every_fn(*args):
             callback = args[0] if args else None
+            this_arg = args[1] if len(args) > 1 else UNDEFINED
             if not callback:
                 return True
             for i, elem in enumerate(arr._elements):
-                val = vm._call_callback(callback, [elem, i, arr])
+                val = vm._call_callback(callback, [elem, i, arr], this_arg)
                 if not to_boolean(val):
                     return False
             return True
